@@ -508,7 +508,9 @@ async def _run_ho(case, exact):
     needs = [{k.lstrip("e") for k, _ in d["fetchers"]} for d in descr]
     stops = {}
     for i, k in case.get("stop", []):
-        if 0 <= i < len(live) - 1 and 0 < k < len(case["rows"]):
+        # (not together with a stalled input: an engine waiting for the stalled input has not yet emitted
+        #  the rows before the stop, so "judged up to the stop" would be wrong)
+        if 0 <= i < len(live) - 1 and 0 < k < len(case["rows"]) and not case.get("stall"):
             stops.setdefault(k, []).append(i)
     stopped = []
 
@@ -1024,6 +1026,8 @@ def binop_ref(op, a, b):
         return None
     if isinstance(r, float) and math.isnan(r):
         return None
+    if isinstance(r, float) and math.isfinite(r):
+        r = F(r)        # finite / inf = (signed) zero: keep the evaluation exact afterwards
     return r
 
 
